@@ -616,3 +616,32 @@ Proof.
   inversion HF; subst. destruct (step_tree s o) as [s1|code] eqn:S; cbn [snd]; auto.
   apply IH; auto. eapply step_tree_preserves; eauto.
 Qed.
+
+(* C12 over all histories: after any accepted prefix the invariant holds, and the next flush /
+   compaction label preserves the reads *)
+Theorem all_histories detect nkeep nlevels next pre o s' :
+  (0 < nlevels)%nat -> Forall op_plain pre -> op_plain o ->
+  let s := snd (exec_tree (init_sys false detect nkeep nlevels next) pre 0) in
+  step_tree s o = Ok s' ->
+  SysInv s /\ SysInv s' /\
+  (forall id, o = Flush id -> forall k ts, db_get (s_db s') k ts = db_get (s_db s) k ts) /\
+  (forall c out, o = Compact c out -> forall k ts now', c_discard c <= ts -> c_now c <= now' ->
+     vis_of now' (db_get (s_db s') k ts) = vis_of now' (db_get (s_db s) k ts)).
+Proof.
+  cbn zeta. intros Hn Hpre Ho H.
+  pose proof (exec_tree_inv pre _ 0 Hpre (init_sys_inv detect nkeep nlevels next Hn)) as HI.
+  split; [exact HI|]. split; [eapply step_tree_preserves; eauto|]. split.
+  - intros id ->. now apply (flush_step_preserves_reads _ id s' HI H).
+  - intros c out ->. now apply (compaction_step_preserves_reads _ c out s' HI Ho H).
+Qed.
+
+(* the hypotheses are satisfiable: a history with a commit, a flush and an L0 -> L1 compaction *)
+Definition ex_history : list op :=
+  [Begin 0 true 0; Modify 0 (mkE [1] 0 0 0 0 [7]) 0; Commit 0 1 0; Flush 5;
+   Compact (mkC 0 1 [5] [] 0 1 [] 0 [(6, 1)] [6]) [mkE [1] 1 0 0 0 [7]];
+   Begin 1 true 1; Modify 1 (mkE [1] 0 1 0 0 []) 0; Commit 1 2 0; Flush 7;
+   Compact (mkC 0 1 [7] [6] 2 1 [] 0 [] []) []].
+
+Example ex_history_accepted :
+  fst (exec_tree (init_sys false false 1 2 1) ex_history 0) = None /\ Forall op_plain ex_history.
+Proof. split; [vm_compute; reflexivity|repeat constructor]. Qed.
